@@ -500,6 +500,17 @@ SameBytes(e) ==
     /\ Chk(e, "C12", "insertion_order_irrelevant", e.out1.r = e.out2.r /\ (e.out1.r = "ok" => e.out1.b = e.out2.b))
     /\ UNCHANGED st
 
+\* ---- request/reply matching from the class metadata (Rpc.tla; beyond the listed properties, judged under C14) ----
+RpcReset(e) == st' = [st EXCEPT !.rpc = [c \in 0..7 |-> ""]]
+RpcSend(e) ==
+    /\ Premise(e, "channel_not_waiting", st.rpc[e.ch] = "")
+    /\ Chk(e, "C14", "expects_reply_flag_in_use", e.name \in MethodNames /\ e.waits = Waits(e.name))
+    /\ st' = [st EXCEPT !.rpc[e.ch] = IF e.name \in MethodNames /\ Waits(e.name) THEN e.name ELSE ""]
+RpcRecv(e) ==
+    /\ Premise(e, "channel_waiting", st.rpc[e.ch] # "")
+    /\ Chk(e, "C14", "reply_matched_by_valid_replies", e.accepted = IsReplyTo(e.name, st.rpc[e.ch]))
+    /\ st' = [st EXCEPT !.rpc[e.ch] = IF IsReplyTo(e.name, st.rpc[e.ch]) THEN "" ELSE @]
+
 ToggleArg(a) == IF a = "false" THEN FALSE ELSE TRUE      \* "true", "noarg" -> TRUE
 
 \* ---- the object world (Api.tla): identity, aliasing, purity (C16, C12) -----------
@@ -588,6 +599,9 @@ Step == /\ l <= Len(Events)
              [] e.a = "CharBlock"   -> CharBlock(e)
              [] e.a = "Observe"     -> Observe(e)
              [] e.a = "SameBytes"   -> SameBytes(e)
+             [] e.a = "RpcReset"    -> RpcReset(e)
+             [] e.a = "RpcSend"     -> RpcSend(e)
+             [] e.a = "RpcRecv"     -> RpcRecv(e)
              [] e.a = "SchedulerStats" -> UNCHANGED st
              [] e.a = "HReset"      -> HReset(e)
              [] e.a = "HNewDict"    -> HNewDict(e)
@@ -609,7 +623,7 @@ Step == /\ l <= Len(Events)
 
 Init == /\ l = 1
         /\ st = [legacy |-> FALSE, tz |-> "UTC", wire |-> <<>>, buf |-> <<>>, sent |-> <<>>, got |-> 0, used |-> 0,
-                  heap |-> HeapInit]
+                  heap |-> HeapInit, rpc |-> [c \in 0..7 |-> ""]]
 Spec == Init /\ [][Step]_vars
 TraceConsumed == TLCGet("stats").diameter - 1 = Len(Events)
 =============================================================================
